@@ -78,7 +78,7 @@ func (i *interpreter) fmtTyped(fr *frame, t types.Type, v value, verb byte) []va
 		return strBytes(fmt.Sprintf("%"+string(verb), x))
 	case []value:
 		var out []value
-		out = append(out, '[')
+		out = append(out, byte('['))
 		var et types.Type
 		if t != nil {
 			if s, ok := t.Underlying().(*types.Slice); ok {
